@@ -21,6 +21,15 @@ pub enum Entry {
     TryRead,
     /// `AVP::try_read_greedy`
     Greedy,
+    /// `AVP::reveal` of `Hidden { attr, value = bytes }` (builds its own
+    /// SliceReader: an out-of-range request shows up as a panic inside
+    /// slice_reader.rs, or as an abort in the dev profile)
+    Reveal {
+        attr: u16,
+        #[serde(with = "hexser")]
+        secret: Vec<u8>,
+        rv: [u8; 4],
+    },
 }
 
 #[derive(Clone, Debug, Serialize, Deserialize)]
@@ -35,6 +44,9 @@ pub struct Case {
 pub fn classify(b: &[u8], entry: &Entry) -> &'static str {
     if *entry == Entry::Greedy {
         return classify_region(b);
+    }
+    if matches!(entry, Entry::Reveal { .. }) {
+        return "reveal";
     }
     if b.len() < 2 {
         return "short";
@@ -82,6 +94,31 @@ fn run_entry(
 ) -> Result<(Result<String, usize>, usize, MonSnap), Caught> {
     // returns (Ok(rendered result) | Err(error-list length), remaining, monitor)
     match entry {
+        Entry::Reveal { attr, secret, rv } => {
+            let h = rl2tp::avp::AVP::Hidden(rl2tp::avp::types::Hidden {
+                attribute_type: *attr,
+                value: b.to_vec(),
+            });
+            let rvv = rl2tp::avp::types::RandomVector::from(*rv);
+            guard(|| h.reveal(secret, &rvv)).map(|r| {
+                let txt = match r {
+                    Ok(a) => serde_json::to_string(&crate::conv::from_crate_avp(&a)).unwrap_or_default(),
+                    Err(e) => errs_text(std::slice::from_ref(&e)),
+                };
+                (
+                    Ok(txt),
+                    0,
+                    MonSnap {
+                        calls: 0,
+                        violations: Vec::new(),
+                        path: 0,
+                        touched_hi: 0,
+                        straddles: 0,
+                        log: None,
+                    },
+                )
+            })
+        }
         Entry::Greedy => decode_avps(b, reader, keep_log).map(|o| {
             let txt = format!(
                 "{:?}",
@@ -165,6 +202,25 @@ fn exec_c01(case: &Case, obs: &mut Obs) -> Result<(), Failure> {
 
 fn exec_c02(case: &Case, obs: &mut Obs) -> Result<(), Failure> {
     let cls = classify(&case.bytes, &case.entry);
+    if matches!(case.entry, Entry::Reveal { .. }) {
+        obs.steps += 1;
+        // reveal owns its reader; the only observable is whether one of the
+        // SliceReader methods refused (panicked on) a request
+        return match run_entry(&case.bytes, &case.entry, &ReaderCfg::Real, false) {
+            Err(c @ Caught::Panic(_)) if c.text().contains("slice_reader.rs") => Err(Failure::new(
+                "C02",
+                "reader-precondition",
+                cls,
+                format!(
+                    "reveal of a {}-octet hidden value issued an out-of-range request to its own SliceReader: {}; value {}",
+                    case.bytes.len(),
+                    c.text(),
+                    to_hex(&case.bytes[..case.bytes.len().min(32)])
+                ),
+            )),
+            _ => Ok(()), // other panics: C13's business
+        };
+    }
     // the reader users have; a panic here is C01's business, not C02's
     let base = run_entry(&case.bytes, &case.entry, &ReaderCfg::Real, false);
     let sim = run_entry(&case.bytes, &case.entry, &case.reader, true);
@@ -444,6 +500,21 @@ fn run_common<S: Scenario<Case = Case>>(rng: &mut Rng, ctx: &mut Ctx) {
     let tier = ctx.tier;
     let mut wl = rng.fork("workload");
     let mut fr = rng.fork("faults");
+    if S::ID == "C02" {
+        let mut rr = rng.fork("reveal");
+        for c in crate::props::hiding::directed_reveal_cases(&mut rr, 24) {
+            ctx.obs.count("fault:solved-declared-length");
+            ctx.check::<S>(&Case {
+                bytes: c.value,
+                entry: Entry::Reveal {
+                    attr: c.attr,
+                    secret: c.secret,
+                    rv: c.rv,
+                },
+                reader: ReaderCfg::Real,
+            });
+        }
+    }
     let bases = base_messages(&mut wl, tier, ctx.obs);
     for base in bases {
         let lay = layout_of(&base);
@@ -602,6 +673,7 @@ impl Scenario for C02 {
                 Entry::Greedy => format!("G {}", to_hex(&b)),
                 Entry::Validate(i) => format!("M {} {}", i, to_hex(&b)),
                 Entry::TryRead => format!("M 2 {}", to_hex(&b)),
+                Entry::Reveal { .. } => continue,
             });
         }
         match crate::props::c19_side::run_miri_sample("C02", &lines) {
@@ -626,7 +698,7 @@ impl Scenario for C02 {
             rule: "same workload and fault enumeration as C01; each delivered octet string is decoded through harness implementations of the public Reader trait (contiguous borrowed T=&[u8]; owning T=Vec<u8>; scatter/gather segments with PRNG chunk boundaries) that check the precondition of every call (fixed-width read needs N octets, skip/subreader need n<=remaining; sub-readers are confined to their own octets) and through the crate's SliceReader; results and final len() must be identical on all of them. The dev-profile worker additionally runs with std's unsafe-precondition checks (abort on a false get_unchecked/unwrap_unchecked precondition). distinct_nontrivial = distinct (delivered octets, fault kind) pairs.",
             assumptions: vec![
                 "reader implementations behind the seam are conforming (no spurious None, no short read): the properties say nothing about non-conforming readers",
-                "AVP::reveal builds its own SliceReader and cannot be given a monitored reader; it is covered by C13's dev-profile abort capture and the Miri sample",
+                "AVP::reveal builds its own SliceReader and cannot be given a monitored reader: each run also reveals 24 hidden values whose decrypted length is solved to a boundary value, and a refusal (panic) inside one of the SliceReader methods, or a dev-profile abort, counts as an out-of-range request",
             ],
             real: vec![
                 "Message::try_read_validate",
